@@ -24,11 +24,14 @@ class Ctx:
         self._paths = {}
         self._cg = None
 
-    def paths(self, fn):
-        """Memoised path analysis of one entry function.  Returns (paths, error)."""
-        key = fn["id"]
+    def paths(self, fn, inline_assume_of=None):
+        """Memoised path analysis of one entry function.  Returns (paths, error).
+        inline_assume_of: ADT paths whose Lockable/Sharable guard-family impls are inlined instead of summarised."""
+        key = fn["id"] if not inline_assume_of else (fn["id"], tuple(sorted(inline_assume_of)))
         if key not in self._paths:
             I = self.M["make"]()
+            if inline_assume_of:
+                I.inline_assume_of = set(inline_assume_of)
             try:
                 self._paths[key] = (I.analyze(fn), None, I)
             except Undecided as e:
